@@ -179,6 +179,7 @@ theorem partialIter_sound_single (A : C10.Arith I C t) (L : Laws (dArith I C t))
     (hnames : (t.map (·.repr)).Nodup)
     (hfn : ∀ n ∈ ["-", "ln", "sqrt", "sin", "cos", "sinh", "cosh", "tanh"],
       ∃ u, findUnaryOp t (String.toList n) = .ok u)
+    (hbop : BopAssoc I t)
     (d : DeepEx K) (hn : C10.Named d.vars d) (hnd : d.vars.Nodup)
     (hsorted : sortBy strLe d.vars = d.vars) (hA : d.Assoc I) (hf : Shortcut.Folded d)
     (hr : Ruled t d) (hsc : Scoped t d.vars d)
@@ -194,7 +195,7 @@ theorem partialIter_sound_single (A : C10.Arith I C t) (L : Laws (dArith I C t))
   split at hp
   · cases hp
   rename_i d' hpd
-  obtain ⟨c1, c2, c3, c4, c5, c6⟩ := partial_sound I C t A L hnames hfn d hn hnd hsorted hA hf hr hsc
+  obtain ⟨c1, c2, c3, c4, c5, c6⟩ := partial_sound I C t A L hnames hfn hbop d hn hnd hsorted hA hf hr hsc
     i x hi ρ _ d' hpd w hw hreg
   obtain ⟨-, s1, f1⟩ := Diff.partial_struct I C t Diff.TT i d d' _
     (Diff.si_of t Diff.TT d.vars d hn hr hsc (Diff.opE_trivial d))
@@ -227,6 +228,7 @@ theorem flat_partialIter_single_sound (A : C10.Arith I C t) (L : Laws (dArith I 
     (hnames : (t.map (·.repr)).Nodup)
     (hfn : ∀ n ∈ ["-", "ln", "sqrt", "sin", "cos", "sinh", "cosh", "tanh"],
       ∃ u, findUnaryOp t (String.toList n) = .ok u)
+    (hbop : BopAssoc I t)
     (f : FlatEx K) (hf : C02.FlatInv I f) (ht : C03.OpsInTable t f.ops)
     (hidx : C02.IdxOK f f.vars.length) (hnd : f.vars.Nodup)
     (hsorted : sortBy strLe f.vars = f.vars) (hr : Diff.FlatRuled t f) (htp : Diff.TblPrio t)
@@ -252,7 +254,7 @@ theorem flat_partialIter_single_sound (A : C10.Arith I C t) (L : Laws (dArith I 
   rename_i r hpr
   cases hp
   have hi' : d.vars[i]? = some x := by rw [hdv]; exact hi
-  obtain ⟨r1, r2, r3, -, -, -, r7, r8⟩ := partialIter_sound_single I C t A L hnames hfn d dn
+  obtain ⟨r1, r2, r3, -, -, -, r7, r8⟩ := partialIter_sound_single I C t A L hnames hfn hbop d dn
     (by rw [hdv]; exact hnd) (by rw [hdv]; exact hsorted) dA df dr (by rw [hdv]; exact dsc)
     i x hi' ρ r hpr w hw hreg
   -- priorities of the result
